@@ -226,8 +226,69 @@ func (v *StoreView) Canon() string {
 	return strings.Join(lines, "\n")
 }
 
+// fastView decodes the records straight from simatomix (no RPC). It mirrors what the stores' Get/List do:
+// transactions take index from the entry, configurations get their committed and applied values from the
+// path-value primitive(s) "configurations-<id>". It is cross-checked against View() regularly.
+func (w *World) fastView() *StoreView {
+	maps, imaps := w.atomix.Dump()
+	v := &StoreView{Props: map[configapi.ProposalID]*configapi.Proposal{}, Cfgs: map[configapi.ConfigurationID]*configapi.Configuration{}}
+	for _, e := range imaps["transactions"] {
+		t := &configapi.Transaction{}
+		if err := t.Unmarshal(e.value); err != nil {
+			panic(err)
+		}
+		t.Index = configapi.Index(e.index)
+		v.Txs = append(v.Txs, t)
+	}
+	for _, b := range maps["proposals"] {
+		p := &configapi.Proposal{}
+		if err := p.Unmarshal(b); err != nil {
+			panic(err)
+		}
+		v.Props[p.ID] = p
+	}
+	for _, b := range maps["configurations"] {
+		c := &configapi.Configuration{}
+		if err := c.Unmarshal(b); err != nil {
+			panic(err)
+		}
+		for path, pb := range maps["configurations-"+string(c.ID)] {
+			pv := &configapi.PathValue{}
+			if err := pv.Unmarshal(pb); err != nil {
+				panic(err)
+			}
+			if c.Values == nil {
+				c.Values = map[string]*configapi.PathValue{}
+			}
+			c.Values[path] = pv
+			pv2 := &configapi.PathValue{}
+			_ = pv2.Unmarshal(pb)
+			if c.Status.Applied.Values == nil {
+				c.Status.Applied.Values = map[string]*configapi.PathValue{}
+			}
+			c.Status.Applied.Values[path] = pv2
+		}
+		v.Cfgs[c.ID] = c
+	}
+	return v
+}
+
+var canonCalls int
+
 // StoreCanon is the canonical text of the store content of the world.
-func (w *World) StoreCanon() string { return w.View().Canon() }
+func (w *World) StoreCanon() string {
+	if w.atomix == nil {
+		return w.View().Canon()
+	}
+	fast := w.fastView().Canon()
+	canonCalls++
+	if canonCalls%2003 == 1 {
+		if slow := w.View().Canon(); slow != fast {
+			panic("HARNESS: fastView disagrees with the stores' own view:\n" + fast + "\n---\n" + slow)
+		}
+	}
+	return fast
+}
 
 // TxTerminal tells whether a transaction reached a final outcome: APPLIED, or FAILED with its abort finished
 // (or failed at apply, which has no abort phase).
